@@ -155,7 +155,8 @@ int64_t cmb_resourceguard_wait(struct cmb_resourceguard *rgp,
 
     /* Back here, possibly much later. Return the signal that resumed us. */
     if (sig != CMB_PROCESS_SUCCESS) {
-        cmi_hashheap_cancel((struct cmi_hashheap *)rgp, key);
+        /* Leaving for some other reason, take back whatever belongs to this wait */
+        cmi_resourceguard_withdraw(rgp, pp);
     }
 
     cmb_assert_debug(!cmi_hashheap_is_enqueued((struct cmi_hashheap *)rgp, key));
@@ -178,6 +179,30 @@ static void wakeup_event_resource(void *vp, void *arg)
     struct cmi_coroutine *cp = (struct cmi_coroutine *)pp;
     if (cp->status == CMI_COROUTINE_RUNNING) {
         (void)cmi_coroutine_resume(cp, arg);
+    }
+}
+
+/*
+ * cmi_resourceguard_withdraw - The process leaves its wait at this guard for
+ * some other reason than being granted (timeout, interrupt, preemption, stop).
+ * Removes it from the queue if it still is there. If not, it may already have
+ * been granted, with the wakeup event still pending. That grant is then
+ * withdrawn and the guard signaled again to pass it on to the next in line,
+ * rather than having it resume this process at some later, unrelated time.
+ */
+void cmi_resourceguard_withdraw(struct cmb_resourceguard *rgp,
+                                struct cmb_process *pp)
+{
+    cmb_assert_release(rgp != NULL);
+    cmb_assert_release(pp != NULL);
+
+    if (!cmb_resourceguard_remove(rgp, pp)) {
+        const uint64_t cnt = cmb_event_pattern_cancel(wakeup_event_resource,
+                                                      pp,
+                                                      (void *)CMB_PROCESS_SUCCESS);
+        if (cnt > 0u) {
+            (void)cmb_resourceguard_signal(rgp);
+        }
     }
 }
 
